@@ -114,6 +114,13 @@ def run(R, only=None):
                 if res[i] != base:
                     R.violation({"kind": "schedule-dependent", "op": op[0]}, f"{op[0]} in thread {t} gave {str(res[i])[:200]}, sequentially {str(base)[:200]}", {"batch": b, "index": i})
                     break
+        for version, ok, desc, clsver in o.get("rebound", []):
+            R.count("rebound:" + ("ok" if ok else "stale"))
+            if not ok:
+                R.violation({"kind": "history-dependent", "op": "loads-after-rebinding"},
+                            f"after verif_dyn_mod.K was rebound to version {version}, loads(dumps(K({version}))) gave an instance that says {desc!r} (class version {clsver}): "
+                            "a name resolved by an earlier load was remembered", {"rebound": o.get("rebound"), "batch": b})
+                break
         for fr in o.get("forced", []):
             R.count("forced:" + fr["scenario"] + (":ok" if fr.get("ok") else ":differs"))
             if not fr.get("ok"):
